@@ -8,7 +8,7 @@
 //! each, ascending per log; after ingesting them with the real `ingest_operation` both sides hold
 //! equal heights.
 use std::collections::{BTreeMap, BTreeSet};
-use std::time::Duration;
+use std::time::{Duration, Instant};
 
 use explorer::task::{block_on_quiescent, End};
 use explorer::{dfs, json, Chooser, DfsCfg, Report};
@@ -63,22 +63,22 @@ fn oracle(
     reps: &[Replica; 2],
     run: &PairRun,
     verified: &std::cell::RefCell<BTreeSet<u64>>,
-) -> (Vec<(String, String)>, usize) {
+) -> (Vec<(String, String)>, [usize; 2]) {
     let mut v: Vec<(String, String)> = vec![];
     let name = ["A", "B"];
     if let Some(p) = &run.panic {
         v.push(("panic".into(), format!("p2panda code panicked: {p}")));
-        return (v, 0);
+        return (v, [0, 0]);
     }
     match &run.end {
         End::AllDone => {}
         End::Deadlock(t) => {
             v.push(("session-did-not-complete/deadlock".into(), format!("tasks {t:?} parked forever on an unbounded transport")));
-            return (v, 0);
+            return (v, [0, 0]);
         }
         End::Horizon => {
             v.push(("session-did-not-complete/livelock".into(), "step horizon reached".into()));
-            return (v, 0);
+            return (v, [0, 0]);
         }
     }
     for i in 0..2 {
@@ -87,14 +87,14 @@ fn oracle(
         }
     }
     if !v.is_empty() {
-        return (v, 0);
+        return (v, [0, 0]);
     }
-    let mut transferred = 0;
+    let mut transferred = [0usize; 2];
     for i in 0..2 {
         let (rx, tx) = (&reps[i], &reps[1 - i]);
         let want = expected(chains, rx, tx);
         let got = run.received(i);
-        transferred += got.len();
+        transferred[i] = got.len();
         // wire-level: operations written by the sender = operations announced by the receiver
         let wire_ops = run.wire[1 - i].iter().filter(|m| sym(m) == Sym::Operation).count();
         let mut seen: BTreeSet<String> = BTreeSet::new();
@@ -201,10 +201,11 @@ struct Part {
     max_dev: usize,
 }
 
-fn run_part(rep: &mut Report, chains: &Chains, part: &Part, wall: Duration) {
+fn run_part(rep: &mut Report, chains: &Chains, part: &Part, wall: Instant) {
     let threads = rep.args.threads;
     let acc = par_for(&part.configs, threads, wall, |idx, cfg, acc: &mut Acc| {
         let mut flowed = false;
+        let mut sample: Option<explorer::Value> = None;
         let verified = std::cell::RefCell::new(BTreeSet::new());
         let st = dfs(
             &DfsCfg { max_dev: part.max_dev, ..Default::default() },
@@ -218,12 +219,23 @@ fn run_part(rep: &mut Report, chains: &Chains, part: &Part, wall: Duration) {
                     5_000,
                 );
                 let (v, n) = oracle(chains, cfg, &reps, &run, &verified);
-                (v, n, run.steps, run.wire.iter().map(|w| w.iter().map(sym).collect::<Vec<_>>()).collect::<Vec<_>>())
+                let recv: Vec<Vec<String>> = (0..2)
+                    .map(|i| {
+                        run.received(i)
+                            .iter()
+                            .map(|o| format!("author{}/log{}/seq{}", chains.author_index(&o.header.verifying_key), o.header.extensions.log, o.header.seq_num))
+                            .collect()
+                    })
+                    .collect();
+                (v, n, run.steps, run.wire.iter().map(|w| w.iter().map(sym).collect::<Vec<_>>()).collect::<Vec<_>>(), recv)
             },
-            |ch, (v, n, steps, syms)| {
+            |ch, (v, n, steps, syms, recv)| {
                 acc.steps += steps;
-                if n > 0 {
+                if n[0] > 0 && n[1] > 0 {
                     flowed = true;
+                    if sample.is_none() {
+                        sample = Some(json!({"part": part.name, "config": describe(cfg), "A_received": recv[0], "B_received": recv[1]}));
+                    }
                 }
                 acc.outcome(&(syms, n));
                 for (key, what) in v {
@@ -241,9 +253,7 @@ fn run_part(rep: &mut Report, chains: &Chains, part: &Part, wall: Duration) {
         acc.state(&(part.name, idx));
         if flowed {
             acc.nontrivial(&cfg);
-            acc.sample(idx as u64 % 9973 * 1000 + idx as u64 % 1000, || {
-                json!({"part": part.name, "config": describe(cfg)})
-            });
+            acc.sample((idx as u64).wrapping_mul(2654435761) % 1_000_003, || sample.take().unwrap_or_default());
         }
     });
     rep.transitions += acc.steps;
@@ -270,16 +280,17 @@ pub fn run(mut rep: Report) -> i32 {
         .map(|side| SlotCfg { a: 1, l: 0, p: None, side })
         .collect()
     };
+    let reps_a0l1: Vec<SlotCfg> = reps_a1.iter().map(|s| SlotCfg { a: 0, l: 1, ..s.clone() }).collect();
     let mut parts: Vec<Part> = vec![];
     if !thorough {
         parts.push(Part {
-            name: "heights: author0 log0,log1 and author1 log0 over {unlisted,empty,0,1,2}^2, deviations<=1",
-            configs: product(&[plain(0, 0), plain(0, 1), plain(1, 0)]),
+            name: "heights: author0 log0,log1 over {unlisted,empty,0,1,2}^2 x 5 author1 states, deviations<=1",
+            configs: product(&[plain(0, 0), plain(0, 1), reps_a1.clone()]),
             max_dev: 1,
         });
         parts.push(Part {
-            name: "pruned: author0 log0 with prune point {1,2} and pruned prefixes x author0 log1 x 5 author1 states, deviations<=1",
-            configs: product(&[slot_options(0, 0, 2, &[Some(1), Some(2)], None), plain(0, 1), reps_a1.clone()]),
+            name: "pruned: author0 log0 with prune point {1,2} and pruned prefixes x 5 author0-log1 states x 5 author1 states, deviations<=1",
+            configs: product(&[slot_options(0, 0, 2, &[Some(1), Some(2)], None), reps_a0l1, reps_a1.clone()]),
             max_dev: 1,
         });
     } else {
@@ -304,10 +315,10 @@ pub fn run(mut rep: Report) -> i32 {
             max_dev: 1,
         });
     }
-    rep.rule = "replica pair = per (author, log) slot a signed chain seq 0..=2 (optionally with a prune-flagged operation) and per side {log not in Logs map, listed without entries, height 0/1/2, pruned prefix}; authors without listed log appear absent or with an empty log list; every scheduler and select!-start-branch choice vector within the deviation bound; non-trivial = pair for which at least one operation was transferred".into();
+    rep.rule = "replica pair = per (author, log) slot a signed chain seq 0..=2 (optionally with a prune-flagged operation) and per side {log not in Logs map, listed without entries, height 0/1/2, pruned prefix}; authors without listed log appear absent or with an empty log list; every scheduler and select!-start-branch choice vector within the deviation bound; non-trivial = pair for which operations were transferred in both directions".into();
     let total: usize = parts.iter().map(|p| p.configs.len()).sum();
     rep.set("configurations", json!(total));
-    let wall = Duration::from_secs(if thorough { 540 } else { 35 });
+    let wall = Instant::now() + Duration::from_secs(if thorough { 560 } else { 40 });
     for p in &parts {
         run_part(&mut rep, &chains, p, wall);
     }
